@@ -58,7 +58,7 @@ pub fn run(ctx: &mut Ctx) {
         case(ctx, &format!("int {}.{}({})", a, op, b), mcall(int(*a), op, vec![int(*b)]));
     } } }
     ctx.stage("cross-kind tables (6 receiver kinds x 6 argument kinds x 13 operators + get/set + arities)");
-    let vals: Vec<(&str, E)> = vec![("null", E::Null), ("int", int(7)), ("true", E::Bool(true)), ("false", E::Bool(false)),
+    let vals: Vec<(&str, E)> = vec![("null", E::Null), ("int", int(7)), ("zero", int(0)), ("one", int(1)), ("true", E::Bool(true)), ("false", E::Bool(false)),
         ("array", array(int(2), int(0))), ("object", object(None, vec![field("a", int(1))]))];
     for (rn, r) in &vals { for (an, a) in &vals { for op in OPERATORS {
         if ctx.take().is_none() { continue }
